@@ -385,6 +385,120 @@ def rule_no_shared_mutable_default(ctx, rep, rule_id="R-NO-SHARED-MUTABLE-DEFAUL
         rep.instance(rule_id, "codebase", "src/", True, detail="no class-level mutable container is filled through self")
 
 
+MUTATORS = {"append", "extend", "update", "add", "setdefault", "pop", "popitem", "clear", "remove", "discard", "insert", "sort", "reverse", "__setitem__", "__delitem__"}
+
+
+def _self_attr(e: ast.AST, selfname: str = "self"):
+    """`self.a` (possibly under subscripts / further attribute reads / method calls such as self.a.values()) -> 'a'"""
+    while True:
+        if isinstance(e, ast.Attribute) and isinstance(e.value, ast.Name) and e.value.id == selfname:
+            return e.attr
+        if isinstance(e, (ast.Attribute, ast.Subscript)):
+            e = e.value
+        elif isinstance(e, ast.Call):
+            e = e.func
+        else:
+            return None
+
+
+def self_attr_mutations(fn: FuncInfo) -> dict[str, ast.AST]:
+    """attributes of `self` that the method rebinds or mutates in place (stores, deletes, mutating container methods)"""
+    out: dict[str, ast.AST] = {}
+    pp = fn.positional_params()
+    if not pp:
+        return out
+    s = pp[0]
+    for n in walk_no_nested(fn.node):
+        tgts = []
+        if isinstance(n, ast.Assign):
+            tgts = n.targets
+        elif isinstance(n, (ast.AugAssign, ast.AnnAssign)) and getattr(n, "value", None) is not None:
+            tgts = [n.target]
+        elif isinstance(n, ast.Delete):
+            tgts = n.targets
+        for t in tgts:
+            for leaf in (t.elts if isinstance(t, (ast.Tuple, ast.List)) else [t]):
+                if isinstance(leaf, (ast.Attribute, ast.Subscript)):
+                    a = _self_attr(leaf, s)
+                    if a:
+                        out.setdefault(a, n)
+        if isinstance(n, ast.Call) and isinstance(n.func, ast.Attribute) and n.func.attr in MUTATORS:
+            a = _self_attr(n.func.value, s)
+            if a:
+                out.setdefault(a, n)
+    return out
+
+
+def rule_memo_coherent(ctx, rep, rule_id="R-MEMO-COHERENT", only_prefixes=None):
+    """Shared by C09 / C14 / C17: a memoised view of an object's state must not outlive a change of that state."""
+    from ..prov import is_cached
+
+    rep.rule(
+        rule_id,
+        "a memoised method or property (functools.cache / lru_cache / cached_property) of a class reads only attributes of `self` that no "
+        "method of the class hierarchy other than the constructor rebinds or mutates in place: otherwise whoever reads the memo after "
+        "such a mutation (a registry filled collection by collection, a package store a writer registers new requirements in, a context "
+        "updated codemod by codemod) acts on a stale view",
+        min_instances=8,
+    )
+    n = 0
+    for fn in ctx.prog.live_functions():
+        if fn.cls is None or not is_cached(fn):
+            continue
+        if only_prefixes and not fn.qname.startswith(tuple(only_prefixes)):
+            continue
+        decos = fn.decorators()
+        if any(d.split("(")[0].split(".")[-1] in ("classmethod", "staticmethod") for d in decos):
+            continue  # keyed by explicit arguments only (result-file loaders): inputs of the run, judged by R-NO-CONTENT-CACHE
+        pp = fn.positional_params()
+        if not pp:
+            continue
+        s = pp[0]
+        # attributes read by the memoised body, following plain (un-memoised) self-method / property reads two levels deep
+        reads: dict[str, str] = {}
+        seen: set[str] = set()
+
+        def collect(f: FuncInfo, via: str, depth: int):
+            if f.qname in seen:
+                return
+            seen.add(f.qname)
+            fp = f.positional_params()
+            if not fp:
+                return
+            for x in walk_no_nested(f.node):
+                if isinstance(x, ast.Attribute) and isinstance(x.value, ast.Name) and x.value.id == fp[0] and isinstance(x.ctx, ast.Load):
+                    m = ctx.prog.lookup_method(fn.cls.qname, x.attr)
+                    if m is not None:
+                        if depth > 0 and not is_cached(m):
+                            collect(m, via + "->" + x.attr, depth - 1)
+                    else:
+                        reads.setdefault(x.attr, via)
+
+        collect(fn, fn.name, 2)
+        # who mutates: every method of the class, its bases and its subclasses except constructors and the memoised method itself
+        family = {c.qname for c in ctx.prog.mro_classes(fn.cls.qname)} | ctx.prog.all_subclasses(fn.cls.qname) | {fn.cls.qname}
+        stale = []
+        for cq in sorted(family):
+            try:
+                c = ctx.prog.cls(cq)
+            except AnalysisError:
+                continue
+            for mname, m in c.methods.items():
+                if mname in ("__init__", "__post_init__", "__new__") or m.qname == fn.qname or m.absorbed:
+                    continue
+                for attr, node in self_attr_mutations(m).items():
+                    if attr in reads:
+                        stale.append((attr, m, node))
+        n += 1
+        rep.check(rule_id, fn.qname, fn.loc(), not stale, "reads-only-frozen-state",
+                  (f"memoised `{fn.name}` reads self.{stale[0][0]} (via {reads[stale[0][0]]}), which `{stale[0][1].name}` changes after construction "
+                   f"(`{unparse(stale[0][2])[:60]}`): later readers get the value computed before that change") if stale else "",
+                  reads=sorted(reads))
+    if n < 8 and not only_prefixes:
+        raise AnalysisError(f"only {n} memoised methods found (expected the context's path listings, the repo manager's parsers/stores, "
+                            "results_for_node, the codemods' docs/description, ...)")
+
+
 def check(ctx, rep):
     rep.explanation = (
         "Cross-talk between codemods of one run can only travel through shared state: the execution context's containers, objects "
@@ -410,6 +524,7 @@ def check(ctx, rep):
 
     # the package stores are parsed once per run and shared by every codemod: a stale view of them is cross-talk between codemods
     rule_store_coherent(ctx, rep)
+    rule_memo_coherent(ctx, rep)
     rep.not_covered += [
         "semgrep_prefilter_results is computed once before any rewrite and gates each later detector run: whether one codemod's "
         "rewrite can enable another's rule needs semgrep semantics (declined; no enabling pair could be constructed)",
